@@ -20,8 +20,9 @@ extern int verif_alloc_count, verif_alloc_failed;
     do { \
 	CHECK(verif_alloc_failed, what ": a call may only fail because of the injected fault"); \
 	CHECK(errno == ENOMEM, what ": errno is ENOMEM"); \
-	CHECK(ghost_err_calls == calls_before + 1 && ghost_err_category == VNAERR_SYSTEM, \
-		what ": reported once as a system error"); \
+	CHECK(ghost_err_calls <= calls_before + 1 && \
+		(ghost_err_calls == calls_before || ghost_err_category == VNAERR_SYSTEM), \
+		what ": reported at most once, as a system error"); \
     } while (0)
 
 /* run `call` (an int expression returning 0 / -1); on failure check and retry once */
@@ -169,6 +170,132 @@ void h_script_vnacal(void)
     printf("VERIF_ALLOC_COUNT=%d\n", verif_alloc_count);
 #endif
     CHECK(vnacal_delete_parameter(vcp, p_vector) == 0, "delete a held vector handle");
+    vnacal_free(vcp);
+}
+#endif
+
+
+#ifdef S_VNACAL_NEW
+/* script: vnacal_new_alloc and one added standard, each retried after a fault */
+int vnaproperty_delete(vnaproperty_t **rootptr, const char *format, ...)
+{
+    (void)format;
+    *rootptr = NULL;
+    return 0;
+}
+
+void h_script_vnacal_new(void)
+{
+    IN(double, mval);
+    static double f[1] = { 1.0e9 };
+    double complex v1[1];
+    double complex *m1[1] = { v1 };
+    vnacal_t *vcp;
+    vnacal_new_t *vnp;
+    int calls_before;
+
+    v1[0] = mval;
+    ghost_err_reset();
+    vcp = vnacal_create(verif_error_fn, NULL);
+    if (vcp == NULL) {
+	CHECK(verif_alloc_failed && errno == ENOMEM, "create: NULL only under the fault, ENOMEM");
+	vcp = vnacal_create(verif_error_fn, NULL);
+	CHECK(vcp != NULL, "create: repeating succeeds");
+	ghost_err_reset();
+    }
+    calls_before = ghost_err_calls;
+    vnp = vnacal_new_alloc(vcp, VNACAL_T8, 2, 2, 1);
+    if (vnp == NULL) {
+	FAILED_CLEANLY("new_alloc");
+	vnp = vnacal_new_alloc(vcp, VNACAL_T8, 2, 2, 1);
+	CHECK(vnp != NULL, "new_alloc: repeating succeeds");
+    }
+    CHECK(vnp->vn_magic == VN_MAGIC && vnp->vn_equations == 0, "new_alloc: fresh object");
+    CHECK(vnacal_new_set_frequency_vector(vnp, f) == 0, "set_frequency_vector");
+    {
+	int calls_before = ghost_err_calls;
+	int rc = vnacal_new_add_single_reflect_m(vnp, m1, 1, 1, VNACAL_SHORT, 1);
+
+	if (rc == -1) {
+	    FAILED_CLEANLY("add");
+	    CHECK(vnp->vn_equations == 0 && vnp->vn_measurement_count == 0 &&
+		    vnp->vn_measurement_list == NULL,
+		    "add: a failed standard adds nothing");
+	    rc = vnacal_new_add_single_reflect_m(vnp, m1, 1, 1, VNACAL_SHORT, 1);
+	    CHECK(rc == 0, "add: repeating succeeds");
+	}
+    }
+    REACH("script finished");
+    CHECK(vnp->vn_measurement_count == 1 && vnp->vn_equations >= 1,
+	    "final state equals that of the fault-free history");
+#if VERIF_FAIL_AT == 0 && !defined(VERIF_NATIVE)
+    CHECK(verif_alloc_count == EXPECT_K, "infra: allocation count differs from the natively measured K");
+#endif
+#ifdef VERIF_NATIVE
+    printf("VERIF_ALLOC_COUNT=%d\n", verif_alloc_count);
+#endif
+    vnacal_new_free(vnp);
+    vnacal_free(vcp);
+}
+#endif
+
+#ifdef S_ADDCAL
+/* script: replace a calibration by name, then add one that grows the table */
+int vnaproperty_delete(vnaproperty_t **rootptr, const char *format, ...)
+{
+    (void)format;
+    *rootptr = NULL;
+    return 0;
+}
+void vnacal_new_free(vnacal_new_t *vnp) { (void)vnp; CHECK(0, "no vnacal_new_t exists in this script"); }
+
+void h_script_addcal(void)
+{
+    vnacal_t *vcp = mk_vcp_min(1);
+    vnacal_calibration_t *old, *c1, *c2;
+    char na[2] = "a", nb[2] = "b";
+    int rc, calls_before;
+
+    /* table with one slot holding "a" */
+    vcp->vc_calibration_allocation = 1;
+    vcp->vc_calibration_vector = malloc(sizeof(vnacal_calibration_t *));
+    ASSUME(vcp->vc_calibration_vector != NULL);
+    old = mk_calibration(vcp, 'a', VNACAL_T8, 2, 2, 1.0e9);
+    vcp->vc_calibration_vector[0] = old;
+    c1 = mk_calibration(vcp, 0, VNACAL_U8, 1, 1, 2.0e9);
+    c2 = mk_calibration(vcp, 0, VNACAL_T8, 1, 1, 3.0e9);
+    verif_alloc_count = 0;			/* count library allocations only */
+    ghost_err_reset();
+
+    calls_before = ghost_err_calls;
+    rc = _vnacal_add_calibration_common("h", vcp, c1, na);	/* replace "a" */
+    if (rc == -1) {
+	FAILED_CLEANLY("replace");
+	CHECK(wf_caltable(vcp) && vcp->vc_calibration_vector[0] == old,
+		"replace: after the failed call the old calibration is still installed and intact");
+	CHECK(vnacal_find_calibration(vcp, na) == 0, "replace: the old calibration is still found");
+	rc = _vnacal_add_calibration_common("h", vcp, c1, na);
+	CHECK(rc != -1, "replace: repeating succeeds");
+    }
+    CHECK(rc == 0 && vcp->vc_calibration_vector[0] == c1 && wf_caltable(vcp), "replace: slot 0 holds the new calibration");
+
+    calls_before = ghost_err_calls;
+    rc = _vnacal_add_calibration_common("h", vcp, c2, nb);	/* grows 1 -> 8 */
+    if (rc == -1) {
+	FAILED_CLEANLY("grow");
+	CHECK(wf_caltable(vcp) && vcp->vc_calibration_vector[0] == c1, "grow: table intact after the failed call");
+	rc = _vnacal_add_calibration_common("h", vcp, c2, nb);
+	CHECK(rc != -1, "grow: repeating succeeds");
+    }
+    REACH("script finished");
+    CHECK(rc == 1 && vcp->vc_calibration_allocation == 8 && vcp->vc_calibration_vector[1] == c2 && wf_caltable(vcp),
+	    "final table equals that of the fault-free history");
+#if VERIF_FAIL_AT == 0 && !defined(VERIF_NATIVE)
+    CHECK(verif_alloc_count == EXPECT_K, "infra: allocation count differs from the natively measured K");
+#endif
+#ifdef VERIF_NATIVE
+    printf("VERIF_ALLOC_COUNT=%d\n", verif_alloc_count);
+#endif
     vnacal_free(vcp);
 }
 #endif
